@@ -63,6 +63,26 @@ def run_case(c, pid):
     vw = flax.traverse_util.unflatten_dict(wrong)
     r = L.run_apply(m, vw, x, c['streams'], False)
     out['wrong_shape_param'] = {'path': list(k), 'vars_in': L.canon_vars(vw), 'result': {kk: w for kk, w in r.items() if kk != 'trace'}}
+  # ---- a name clash that only shows during apply: the same program with one variable declared twice (or a child named like a
+  # variable), applied on the variables init returned -- the variable exists already, the clash must still raise
+  body, ret = prog['classes'][str(prog['top'])]
+  decl = [s for s in body if s[0] == 'var']
+  if decl:
+    s0 = decl[c['pick'] % len(decl)]
+    loc = max([0] + [t[1] for t in body if t[0] in ('param', 'var', 'perturb', 'let', 'call', 'ctl')]) + 1
+    inst = max([0] + [t[1] for t in body if t[0] == 'child']) + 1
+    kids = sorted({t[2] for t in body if t[0] == 'child'})
+    if c['pick'] % 2 == 0 or not kids or not isinstance(s0[3], str):
+      extra = ['var', loc, s0[2], s0[3], s0[4], s0[5]]
+    else:
+      extra = ['child', inst, kids[0], s0[3]]
+    i0 = body.index(s0)
+    PID3 = 20000 + pid
+    L.PROGS[PID3] = {'classes': {**prog['classes'], '998': (body[:i0 + 1] + [extra] + body[i0 + 1:], ret)}, 'top': 998, 'n': prog['n']}
+    qm = L.get_class(998)(PID3, 998)
+    # the top class is renamed (998): automatic child names of other classes are unaffected, explicit ones too
+    r = L.run_apply(qm, v, x, c['streams'], nn.DenyList('intermediates'))
+    out['clash_on_apply'] = {'extra': extra, 'after': i0, 'result': {kk: w for kk, w in r.items() if kk != 'trace'}}
   # ---- shape-only initialisation
   def sh(fn):
     try:
